@@ -61,6 +61,7 @@ type Task struct {
 	reaped  bool
 	goid    uint64
 	started bool
+	lastFaulted bool
 }
 
 // Request is a parked seam call.
@@ -468,11 +469,20 @@ func (s *Sim) decide(r *Request) Outcome {
 		}
 		return OK
 	}
-	if len(menu) == 0 || a < 1000-s.Cfg.Permille {
+	// correlated faults: right after a fault the same task's next request is
+	// much more likely to be faulted too (faults cluster in real outages, and
+	// the interesting recovery paths need two in a row).
+	burst := r.Task.lastFaulted && s.Cfg.Permille > 0 && a%2 == 1
+	r.Task.lastFaulted = false
+	if len(menu) == 0 || (a < 1000-s.Cfg.Permille && !burst) {
 		return OK
 	}
 	o := menu[b%len(menu)]
 	s.Faults[o.String()]++
+	r.Task.lastFaulted = true
+	if burst {
+		s.Probes["burst-fault"]++
+	}
 	return o
 }
 
